@@ -10,7 +10,7 @@ Definition status_eqb (a b : status) : bool :=
 Definition msg_eqb (a b : msg) : bool :=
   match a, b with
   | MNone, MNone | MCmp, MCmp | MPlayer, MPlayer | MExtractor, MExtractor | MComparator, MComparator
-  | MDied, MDied | MTimeout, MTimeout => true
+  | MDied, MDied | MTimeout, MTimeout | MUnload, MUnload | MRefused, MRefused => true
   | _, _ => false
   end.
 Definition tri_eqb (a b : tri) : bool :=
